@@ -72,8 +72,12 @@ class FIBDemux(Device):
                 # no outputs at all (None or []) is an IndexError like any
                 # other port number without an output: use the default output
                 outs = self.outs if self.outs is not None else []
-                outs[self._fib[packet.flow_id]].put(packet)
+                out = outs[self._fib[packet.flow_id]]
             except (KeyError, IndexError, ValueError) as exc:
                 print("FIB Demux Error: " + str(exc))
-                if self.default_out:
-                    self.default_out.put(packet)
+                out = self.default_out
+            # the put happens outside the try: an exception raised by the
+            # downstream element is not a lookup failure and must not hand
+            # the packet to the default output a second time
+            if out:
+                out.put(packet)
